@@ -60,8 +60,25 @@ def run_one(m: dict, tier: str, with_tests: bool, keep: bool = False) -> dict:
                                    env=env, capture_output=True, text=True, cwd=core.VERIF, timeout=1600)
                 viol = [ln for ln in c.stdout.splitlines() if ln.startswith("VIOLATION ")]
                 sigs = [ln.strip() for ln in c.stdout.splitlines() if ln.strip().startswith("violation:")]
+                # every reported replay file must reproduce its violation in a fresh process
+                replays_ok = replays_bad = 0
+                for ln in viol:
+                    path = ln.split("replay=", 1)[-1].strip()
+                    rp = subprocess.run([os.path.join(core.VERIF, "check"), prop, "--replay", path], env=env, capture_output=True,
+                                        text=True, cwd=core.VERIF, timeout=900)
+                    same = False
+                    for rl in rp.stdout.splitlines():
+                        if rl.startswith("REPLAY property=") and "recorded=" in rl:
+                            rec = rl.split("recorded=", 1)[1].split(" observed=")[0]
+                            obs = rl.split(" observed=", 1)[1]
+                            same = rec == obs
+                    if rp.returncode == 1 and same:
+                        replays_ok += 1
+                    else:
+                        replays_bad += 1
                 out["props"][prop] = {"exit": c.returncode, "detected": c.returncode == 1 and bool(viol),
-                                      "signatures": sigs[:4], "wall_s": round(time.monotonic() - t0, 1)}
+                                      "signatures": sigs[:4], "wall_s": round(time.monotonic() - t0, 1),
+                                      "replays_reproduced": replays_ok, "replays_not_reproduced": replays_bad}
                 if c.returncode not in (0, 1):
                     out["props"][prop]["tail"] = (c.stdout + c.stderr)[-400:]
             except subprocess.TimeoutExpired:
@@ -93,7 +110,8 @@ def main(argv) -> int:
             flag = "DETECTED" if pr["detected"] else "missed"
             if prop == primary and not pr["detected"]:
                 missed += 1
-            print(f"{m['id']:45s} {prop} {flag:8s} exit={pr['exit']} {pr['wall_s']}s {pr['signatures'][:2]}", flush=True)
+            print(f"{m['id']:45s} {prop} {flag:8s} exit={pr['exit']} {pr['wall_s']}s replays={pr.get('replays_reproduced')}/"
+                  f"{(pr.get('replays_reproduced') or 0) + (pr.get('replays_not_reproduced') or 0)} {pr['signatures'][:2]}", flush=True)
         if r.get("error"):
             print(f"{m['id']:45s} ERROR {r['error']}", flush=True)
         if r.get("unit_tests") not in (None, "pass"):
